@@ -3,8 +3,14 @@ import NetaddrVerif.Model.Registry
 import NetaddrVerif.Gen.Iana
 /-! Driver ops of property C19.
 
-* `iana_query ver val`                → `[ids];[ids];[ids];[ids]` (IPv4; IPv6; IPv6_unicast; Multicast) over the
-                                         regenerated tables `Gen.iana*`
+* `iana_query ver val`                → `E;E;E;E|A;A;A;A` (IPv4; IPv6; IPv6_unicast; Multicast) over the regenerated
+                                         tables `Gen.iana*`: `E` = `info[k]` (`[ids]`, or `-` for `None` = key absent),
+                                         `A` = `info.k` (`[ids]` or `!other` = AttributeError); model `Registry.queryD`
+* `ieee_load oui|iab h:<hex>`         → `key=o:s+o:s;…` (the dict `load_index` builds from the index the parser
+                                         wrote, sorted by key) or `!tag`; model `Registry.ouiPipeline/iabPipeline`
+* `ieee_genlookup oui|iab key h:<hex>`
+                                       → parser → `load_index` → `OUI(key)` / `IAB(key)` with seek+read on the same
+                                         text: `off/size/ORG/[ADDR,…]` joined by `;` or `!tag`
 * `oui_index h:<hex>` / `iab_index h:<hex>`
                                        → `[key:offset:size,…]` or `!tag`; the argument is the whole registry file
 * `ieee_lookup oui|iab key [k:o:s,…] [o:s:<hex>,…]`
@@ -33,6 +39,34 @@ def showIds (l : List Rec) : String := showList (l.map (fun r => toString r.id))
 
 def showInfo (i : Info) : String :=
   ";".intercalate [showIds i.ipv4, showIds i.ipv6, showIds i.ipv6u, showIds i.mcast]
+
+def showItem (e : Option (List Rec)) : String :=
+  match getItem e with
+  | none => "-"
+  | some l => showIds l
+
+def showAttr (e : Option (List Rec)) : String :=
+  match getAttr e with
+  | .error err => showErr err
+  | .ok l => showIds l
+
+def showInfoD (i : InfoD) : String :=
+  ";".intercalate [showItem i.ipv4, showItem i.ipv6, showItem i.ipv6u, showItem i.mcast] ++ "|" ++
+  ";".intercalate [showAttr i.ipv4, showAttr i.ipv6, showAttr i.ipv6u, showAttr i.mcast]
+
+/-- insertion sort of the loaded rows by key (stable: rows of one key keep file order) -/
+def insertRow (r : Int × Nat × Nat) : List (Int × List (Nat × Nat)) → List (Int × List (Nat × Nat))
+  | [] => [(r.1, [(r.2.1, r.2.2)])]
+  | (k, l) :: t =>
+    if r.1 == k then (k, l ++ [(r.2.1, r.2.2)]) :: t
+    else if r.1 < k then (r.1, [(r.2.1, r.2.2)]) :: (k, l) :: t
+    else (k, l) :: insertRow r t
+
+def showLoaded : R (List (Int × Nat × Nat)) → String
+  | .error e => showErr e
+  | .ok idx =>
+    let d := idx.foldl (fun acc r => insertRow r acc) []
+    ";".intercalate (d.map (fun (k, l) => s!"{k}=" ++ "+".intercalate (l.map (fun (o, s) => s!"{o}:{s}"))))
 
 /-- hex digit value of an ASCII byte (0 for anything else: the harness sends only hex) -/
 def hexVal (b : UInt8) : Nat :=
@@ -77,7 +111,29 @@ def parseSlice (tok : String) : Option ((Nat × Nat) × List Char) :=
 def handle (op : String) (args : List String) : Option String :=
   match op, args with
   | "iana_query", [ver, v] => do
-    pure (showInfo (query genTables ⟨← ver.toNat?, ← v.toNat?⟩))
+    pure (showInfoD (queryD genTables ⟨← ver.toNat?, ← v.toNat?⟩))
+  | "ieee_load", [kind, h] => do
+    let bs ← bigHex h
+    if kind == "oui" then pure (showLoaded (ouiPipeline bs))
+    else if kind == "iab" then pure (showLoaded (iabPipeline bs))
+    else none
+  | "ieee_genlookup", [kind, key, h] => do
+    let key ← key.toNat?
+    let bs ← bigHex h
+    let read := fun (off size : Nat) => utf8Decode (slice bs off size)
+    if kind == "oui" then
+      pure (match ouiPipeline bs with
+        | .error e => showErr e
+        | .ok idx => match ouiRecords read (dictView idx) key with
+          | .error e => showErr e
+          | .ok rs => ";".intercalate (rs.map (fun (o, s, p) => s!"{o}/{s}/{showParsed p}")))
+    else if kind == "iab" then
+      pure (match iabPipeline bs with
+        | .error e => showErr e
+        | .ok idx => match iabRecord read (dictView idx) key with
+          | .error e => showErr e
+          | .ok (o, s, p) => s!"{o}/{s}/{showParsed p}")
+    else none
   | "oui_index", [h] => do
     pure (showRows showHexKey (ouiIndex (← bigHex h)))
   | "iab_index", [h] => do
